@@ -21,21 +21,21 @@
 (* what the code does not do.                                              *)
 (*                                                                         *)
 (* The invariants are the clauses of the property.  The unchanged code     *)
-(* violates them for nine syntactic triggers (Tags).  Allow bounds the     *)
+(* violates them for ten syntactic triggers (Tags).   Allow bounds the     *)
 (* domain to programs whose triggers are in Allow; Fix switches on the     *)
 (* proposed repair of a trigger inside the transcription.  One invariant   *)
 (* family therefore states three results:                                  *)
 (*   Allow = all, Fix = {}   : programs without trigger -> Impl = CPython  *)
 (*                             (the clean domain is verified, every        *)
 (*                             difference is attributed to a trigger);     *)
-(*   Allow = all, Fix = all  : the nine repairs make Impl = CPython on     *)
+(*   Allow = all, Fix = all  : the ten repairs make Impl = CPython on      *)
 (*                             the whole domain (the list is complete);    *)
 (*   Allow = {t}, Strict     : TLC exhibits the defect of trigger t        *)
 (*                             (counterexample replayed on the real code). *)
 (***************************************************************************)
 EXTENDS Naturals, Sequences, FiniteSets, TLC, Json, IOUtils
 
-CONSTANTS Dom,      \* bounds of the program space: one of the Dom_* records below (cfg: Dom <- Dom_x)
+CONSTANTS Doms,     \* names of the program spaces to explore (see DomOf below); Init picks one per behaviour
           Allow,    \* set of defect triggers (Tags) a program may contain
           Fix,      \* set of triggers whose proposed fix is applied in the Impl transcription
           Emit      \* TRUE: print every finished program as a CASE line
@@ -51,7 +51,7 @@ PK == "positional or keyword"
 KO == "keyword-only"
 RM == "removed"                 \* tombstone kind, only produced when "noninit" \in Fix
 
-AllTags == {"kwF", "pinitF", "initF", "cvbare", "fempty", "inhdef", "annprop", "noninit", "labelhand"}
+AllTags == {"kwF", "pinitF", "initF", "cvbare", "fempty", "inhdef", "annprop", "noninit", "labelhand", "handassign"}
 
 \* Field forms (one class-body statement each; "annprop" is two statements)
 \*   ann        x: int                              annval     x: int = 1
@@ -60,13 +60,14 @@ AllTags == {"kwF", "pinitF", "initF", "cvbare", "fempty", "inhdef", "annprop", "
 \*   fkwT       x: int = field(kw_only=True)        fkwTd      x: int = field(kw_only=True, default=1)
 \*   fkwF       x: int = field(kw_only=False)       fkwFd      x: int = field(kw_only=False, default=1)
 \*   fempty     x: int = field()                    fother     x: int = field(repr=False)
+\*   finitT     x: int = field(init=True)
 \*   kwonly     _: KW_ONLY
 \*   classvar   x: ClassVar[int] = 1                classvarN  x: ClassVar[int]
 \*   classvarB  x: ClassVar = 1   (not subscripted)
 \*   initvar    x: InitVar[int]                     initvarD   x: InitVar[int] = 1
 \*   prop       @property def x(self) -> int        annprop    x: int  followed by  @property def x(self) -> int
 \*   unann      x = 1
-FieldCallForms == {"fdef", "ffac", "finitF", "finitFd", "fkwT", "fkwTd", "fkwF", "fkwFd", "fempty", "fother"}
+FieldCallForms == {"fdef", "ffac", "finitF", "finitFd", "finitT", "fkwT", "fkwTd", "fkwF", "fkwFd", "fempty", "fother"}
 AllForms == FieldCallForms \cup {"ann", "annval", "kwonly", "classvar", "classvarN", "classvarB",
                                  "initvar", "initvarD", "prop", "annprop", "unann"}
 PlainForms == {"ann", "annval", "unann", "prop"}          \* what a non-dataclass class may contain
@@ -92,48 +93,67 @@ FArgs(f) == CASE f = "fdef" -> {"default"}
               [] f = "fkwF" -> {"kw_only=False"}
               [] f = "fkwFd" -> {"kw_only=False", "default"}
               [] f = "fother" -> {"repr=False"}
+              [] f = "finitT" -> {"init=True"}
               [] OTHER -> {}
 
-\* class headers: decorated or not, decorator arguments ("u" = not given), hand-written __init__(self, q)
-H(dc, i, k, h) == [dc |-> dc, init |-> i, kw |-> k, hand |-> h]
+\* class headers: decorated or not, decorator arguments ("u" = not given), hand-written __init__(self, q) whose body
+\* is `pass` (assign = FALSE) or assigns the declared fields and one more attribute: `self.x = q ... self.z: int = q`
+H(dc, i, k, h) == [dc |-> dc, init |-> i, kw |-> k, hand |-> h, assign |-> FALSE]
+HA(dc, i, k) == [dc |-> dc, init |-> i, kw |-> k, hand |-> TRUE, assign |-> TRUE]
 Flag == {"u", "T", "F"}
 HdrsAll  == {H(TRUE, i, k, h) : i \in Flag, k \in Flag, h \in BOOLEAN} \cup {H(FALSE, "u", "u", h) : h \in BOOLEAN}
+              \cup {HA(TRUE, i, k) : i \in Flag, k \in Flag} \cup {HA(FALSE, "u", "u")}
 HdrsNoHand == {h \in HdrsAll : ~h.hand}
+HdrsSingle == {h \in HdrsAll : ~h.assign} \cup {HA(TRUE, "u", "u")}     \* the body of __init__ only matters to subclasses
 HdrsLite == {H(TRUE, "u", "u", FALSE), H(TRUE, "u", "T", FALSE), H(TRUE, "F", "u", FALSE), H(TRUE, "u", "u", TRUE),
-             H(FALSE, "u", "u", FALSE), H(FALSE, "u", "u", TRUE)}
+             H(FALSE, "u", "u", FALSE), H(FALSE, "u", "u", TRUE), HA(TRUE, "u", "u")}
 HdrsKw   == {H(TRUE, "u", k, FALSE) : k \in Flag}
 HdrsDc   == {H(TRUE, "u", "u", FALSE)}
 
-\* ---- program spaces (cfg: Dom <- Dom_...) ------------------------------------------------------
+\* ---- program spaces (cfg: Doms = {"single2", ...}) ---------------------------------------------
 \* nc: classes in the chain; nf[i]: statements in class i; forms[i]: forms a dataclass at level i may use;
 \* hdrs[i]: headers at level i; names[i]: names a field of class i >= 2 may take (class 1 uses a, b, c in order)
+N3 == {"a", "b", "c"}
 Core == {"ann", "annval", "fkwT", "fkwFd", "finitF", "classvarN", "initvar", "prop", "unann", "kwonly"}
-Dom_single2 == [mode |-> "enum", nc |-> 1, nf |-> <<2, 0, 0>>, forms |-> <<AllForms, {}, {}>>, hdrs |-> <<HdrsAll, {}, {}>>,
-                names |-> <<NameSet, {}, {}>>]
-Dom_single3 == [mode |-> "enum", nc |-> 1, nf |-> <<3, 0, 0>>, forms |-> <<AllForms, {}, {}>>, hdrs |-> <<HdrsKw, {}, {}>>,
-                names |-> <<NameSet, {}, {}>>]
-Dom_single3all == [mode |-> "enum", nc |-> 1, nf |-> <<3, 0, 0>>, forms |-> <<AllForms, {}, {}>>, hdrs |-> <<HdrsAll, {}, {}>>,
-                names |-> <<NameSet, {}, {}>>]
-Dom_single4 == [mode |-> "enum", nc |-> 1, nf |-> <<4, 0, 0>>,
-                forms |-> <<{"ann", "annval", "ffac", "fkwT", "fkwF", "fkwFd", "finitF", "kwonly", "classvar", "initvarD", "fempty"}, {}, {}>>,
-                hdrs |-> <<HdrsKw, {}, {}>>, names |-> <<NameSet, {}, {}>>]
-Dom_pair_q  == [mode |-> "enum", nc |-> 2, nf |-> <<2, 1, 0>>, forms |-> <<Core \ {"kwonly"}, AllForms, {}>>, hdrs |-> <<HdrsLite, HdrsLite, {}>>,
-                names |-> <<NameSet, NameSet, {}>>]
-Dom_pair_t  == [mode |-> "enum", nc |-> 2, nf |-> <<2, 2, 0>>, forms |-> <<AllForms \ {"fother", "fkwTd"}, AllForms \ {"fother", "fkwTd"}, {}>>,
-                hdrs |-> <<HdrsLite, HdrsLite, {}>>, names |-> <<NameSet, NameSet, {}>>]
-Dom_pairhdr == [mode |-> "enum", nc |-> 2, nf |-> <<1, 1, 0>>, forms |-> <<AllForms, AllForms, {}>>, hdrs |-> <<HdrsAll, HdrsAll, {}>>,
-                names |-> <<NameSet, {"a", "b"}, {}>>]
-Dom_triple_q == [mode |-> "enum", nc |-> 3, nf |-> <<1, 1, 1>>, forms |-> <<Core \ {"kwonly"}, Core \ {"kwonly"}, Core>>,
-                hdrs |-> <<HdrsLite, HdrsLite, HdrsLite>>, names |-> <<NameSet, {"a", "b"}, {"a", "b"}>>]
-Dom_triple_t == [mode |-> "enum", nc |-> 3, nf |-> <<2, 1, 1>>, forms |-> <<Core \ {"kwonly"}, AllForms \ {"fother", "fkwTd", "kwonly"}, AllForms \ {"fother", "fkwTd"}>>,
-                hdrs |-> <<HdrsLite, HdrsLite, HdrsLite>>, names |-> <<NameSet, NameSet, NameSet>>]
+D(nc, nf, forms, hdrs, names) == [mode |-> "enum", nc |-> nc, nf |-> nf, forms |-> forms, hdrs |-> hdrs, names |-> names]
+\* -- one class
+Dom_single2 == D(1, <<2, 0, 0>>, <<AllForms, {}, {}>>, <<HdrsSingle, {}, {}>>, <<N3, {}, {}>>)
+Dom_single3q == D(1, <<3, 0, 0>>, <<{"ann", "annval", "ffac", "fkwT", "fkwF", "fkwFd", "finitF", "kwonly", "classvarN", "initvarD"}, {}, {}>>,
+                  <<HdrsKw, {}, {}>>, <<N3, {}, {}>>)
+Dom_single3 == D(1, <<3, 0, 0>>, <<AllForms, {}, {}>>, <<HdrsNoHand, {}, {}>>, <<N3, {}, {}>>)
+Dom_single4 == D(1, <<4, 0, 0>>, <<{"ann", "annval", "ffac", "fkwT", "fkwF", "fkwFd", "finitF", "kwonly", "classvar", "initvarD", "fempty"}, {}, {}>>,
+                  <<HdrsKw, {}, {}>>, <<NameSet, {}, {}>>)
+\* -- parent and child
+\* (init=False together with a hand-written __init__ is the usual reason to pass init=False)
+PairParentHdrs == {H(TRUE, "u", "u", FALSE), H(TRUE, "F", "u", FALSE), H(TRUE, "F", "u", TRUE), H(TRUE, "u", "u", TRUE), H(FALSE, "u", "u", FALSE),
+                   HA(TRUE, "u", "u")}
+PairChildHdrs  == {H(TRUE, "u", "u", FALSE), H(TRUE, "u", "T", FALSE), H(TRUE, "F", "u", FALSE), H(FALSE, "u", "u", FALSE), H(FALSE, "u", "u", TRUE)}
+Dom_pair_w  == D(2, <<1, 1, 0>>, <<Core \ {"kwonly"}, Core, {}>>, <<HdrsLite \cup {H(TRUE, "F", "u", TRUE)}, HdrsLite, {}>>, <<N3, {"a", "b"}, {}>>)   \* witness runs
+Dom_pair_q  == D(2, <<2, 1, 0>>, <<{"ann", "annval", "fkwT", "finitF", "classvarN", "initvar", "prop"},
+                                   {"ann", "annval", "fkwT", "finitF", "classvarN", "initvar", "prop", "unann"}, {}>>,
+                 <<PairParentHdrs, PairChildHdrs, {}>>, <<N3, N3, {}>>)
+Dom_pair_m  == D(2, <<2, 1, 0>>, <<Core \ {"kwonly"}, AllForms, {}>>, <<HdrsLite, HdrsLite, {}>>, <<N3, N3, {}>>)
+Dom_pair_t  == D(2, <<2, 2, 0>>, <<{"ann", "annval", "fkwT", "finitF", "classvarN", "initvar", "prop"},
+                                   {"ann", "annval", "fkwT", "fkwFd", "finitF", "classvarN", "initvar", "prop", "unann", "kwonly"}, {}>>,
+                 <<PairParentHdrs, PairChildHdrs, {}>>, <<N3, N3, {}>>)
+Dom_pairhdr == D(2, <<1, 1, 0>>, <<Core, Core, {}>>, <<HdrsAll, HdrsAll, {}>>, <<N3, {"a", "b"}, {}>>)
+\* -- three levels
+TripleHdrs == {H(TRUE, "u", "u", FALSE), H(TRUE, "F", "u", FALSE), H(FALSE, "u", "u", FALSE), H(FALSE, "u", "u", TRUE)}
+Dom_triple_q == D(3, <<1, 1, 1>>, <<{"ann", "annval", "fkwT", "classvarN"}, {"ann", "annval", "fkwT", "classvarN"},
+                                    {"ann", "annval", "fkwT", "classvarN"}>>,
+                  <<TripleHdrs, TripleHdrs, TripleHdrs>>, <<N3, {"a", "b"}, {"a", "b"}>>)
+Dom_triple_t == D(3, <<1, 1, 1>>, <<Core \ {"kwonly"}, Core \ {"kwonly"}, Core>>,
+                  <<HdrsLite, HdrsLite, HdrsLite>>, <<N3, {"a", "b"}, {"a", "b"}>>)
 \* "target": the programs are not enumerated but read from the JSON file named by the environment variable
 \* C18_TARGETS (a list of chains written by the driver: seeded random programs beyond the enumerated bounds,
 \* counterexamples of witness runs, stored replay cases); TLC then only evaluates Impl and the reference on them.
 Dom_target  == [mode |-> "target", nc |-> 0, nf |-> <<0, 0, 0>>, forms |-> <<{}, {}, {}>>, hdrs |-> <<{}, {}, {}>>,
                 names |-> <<{}, {}, {}>>]
-TargetMode == Dom.mode = "target"
 Targets == JsonDeserialize(IOEnv.C18_TARGETS)
+DomOf(d) == CASE d = "single2" -> Dom_single2 [] d = "single3q" -> Dom_single3q [] d = "single3" -> Dom_single3
+              [] d = "single4" -> Dom_single4 [] d = "pair_w" -> Dom_pair_w [] d = "pair_q" -> Dom_pair_q
+              [] d = "pair_m" -> Dom_pair_m [] d = "pair_t" -> Dom_pair_t [] d = "pairhdr" -> Dom_pairhdr
+              [] d = "triple_q" -> Dom_triple_q [] d = "triple_t" -> Dom_triple_t [] d = "target" -> Dom_target
 
 \* ---------------------------------------------------------------------------------------------
 \* State
@@ -147,8 +167,12 @@ VARIABLES chain,     \* the source so far: Seq([hdr, fields: Seq([name, form])])
           glabels,   \* Griffe: per class the labels set (only "dataclass" is tracked)
           cache,     \* Griffe: functools.cache of _dataclass_parameters, per class [set, val]
           k,         \* index of the class _apply_recursively reaches next
-          tid        \* target mode: index of the program being written (0 otherwise)
-vars == <<chain, open, pc, wf, py, members, glabels, cache, k, tid>>
+          tid,       \* target mode: index of the program being written (0 otherwise)
+          tags,      \* Tags(chain), kept in a variable (TLC does not memoise operators)
+          dom        \* the program space this behaviour belongs to (an element of Doms)
+vars == <<chain, open, pc, wf, py, members, glabels, cache, k, tid, tags, dom>>
+Dom == DomOf(dom)
+TargetMode == dom = "target"
 
 N == Len(chain)
 DC(ch, i) == ch[i].hdr.dc
@@ -204,6 +228,9 @@ Tags(ch) ==
   \cup
   \* undecorated class with its own __init__ below a dataclass
   (IF \E i \in 1..n : ~DC(ch, i) /\ ch[i].hdr.hand /\ \E j \in 1..(i - 1) : DC(ch, j) THEN {"labelhand"} ELSE {})
+  \cup
+  \* a dataclass below a dataclass whose hand-written __init__ assigns attributes
+  (IF \E i \in 1..n, j \in 1..n : i < j /\ DC(ch, i) /\ DC(ch, j) /\ ch[i].hdr.assign THEN {"handassign"} ELSE {})
 
 \* ---------------------------------------------------------------------------------------------
 \* Griffe's visitor, as far as the extension reads its output
@@ -233,9 +260,22 @@ VisitAttr(n, f) ==
             IF f \in {"prop", "annprop"} THEN {} ELSE FArgs(f),
             f = "annprop", "", <<>>)
 
+\* fields the assigning __init__ sets: `self.x = q` for every ordinary field x of the class body
+AssignedForms == FieldCallForms \cup {"ann", "annval"}
+\* Visitor.handle_attribute inside a function named __init__: the new Attribute (value `q`) replaces the member of the
+\* class in place; labels of the existing member are merged, its annotation is forwarded, the field(...) call is gone
+VisitInitBody(c, ms) ==
+  IF ~c.hdr.assign \/ "handassign" \in Fix THEN ms
+  ELSE [j \in 1..Len(ms) |->
+          IF j <= Len(c.fields) /\ c.fields[j].form \in AssignedForms
+          THEN [ms[j] EXCEPT !.val = "val", !.fargs = {}, !.labels = @ \cup {"instance-attribute"}]
+          ELSE ms[j]]
+       \o <<Member("z", "attribute", "plain", {"instance-attribute"}, "val", {}, FALSE, "", <<>>)>>      \* self.z: int = q
+
 VisitClass(c) ==      \* members in definition order; a re-definition (annprop) keeps the first position
-  [j \in 1..Len(c.fields) |-> VisitAttr(c.fields[j].name, c.fields[j].form)]
-    \o (IF c.hdr.hand THEN <<Member("__init__", "function", "none", {}, "none", {}, FALSE, "hand", HandParams)>> ELSE <<>>)
+  VisitInitBody(c,
+    [j \in 1..Len(c.fields) |-> VisitAttr(c.fields[j].name, c.fields[j].form)]
+      \o (IF c.hdr.hand THEN <<Member("__init__", "function", "none", {}, "none", {}, FALSE, "hand", HandParams)>> ELSE <<>>))
 
 HasMember(ms, n) == \E j \in 1..Len(ms) : ms[j].name = n
 GetMember(ms, n) == ms[CHOOSE j \in 1..Len(ms) : ms[j].name = n]
@@ -391,20 +431,22 @@ ProcessClass(pys, c) ==
 Init ==
   /\ chain = <<>> /\ open = FALSE /\ pc = "build" /\ wf = TRUE
   /\ py = <<>> /\ members = <<>> /\ glabels = <<>> /\ cache = <<>> /\ k = 0
-  /\ tid \in (IF TargetMode THEN 1..Len(Targets) ELSE {0})
+  /\ dom \in Doms
+  /\ tid \in (IF dom = "target" THEN 1..Len(Targets) ELSE {0})
+  /\ tags = {}
 
-InDomain(ch) == Tags(ch) \subseteq Allow
 T == Targets[tid]
 
 DefClass ==        \* `@dataclass(...)` / `class Ci(Ci-1):`
   /\ pc = "build" /\ ~open /\ wf
   /\ N < (IF TargetMode THEN Len(T) ELSE Dom.nc)
   /\ \E h \in (IF TargetMode THEN {T[N + 1].hdr} ELSE Dom.hdrs[N + 1]) :
-       LET ch == Append(chain, [hdr |-> h, fields |-> <<>>]) IN
-       /\ InDomain(ch)
-       /\ chain' = ch
+       LET ch == Append(chain, [hdr |-> h, fields |-> <<>>])
+           t == Tags(ch)
+       IN /\ t \subseteq Allow
+          /\ chain' = ch /\ tags' = t
   /\ open' = TRUE
-  /\ UNCHANGED <<pc, wf, py, members, glabels, cache, k, tid>>
+  /\ UNCHANGED <<pc, wf, py, members, glabels, cache, k, tid, dom>>
 
 \* the statements that may come next in the body of the open class
 Candidates(c) ==
@@ -426,10 +468,11 @@ DefField ==        \* one more statement in the body of the open class
         /\ \A j \in 1..Len(c.fields) : c.fields[j].name # fd.name      \* one KW_ONLY at most, no re-assignment
         /\ (fd.form = "kwonly") = (fd.name = KW)
         /\ fd.name \in NameSet \cup {KW} /\ fd.form \in AllForms /\ (~c.hdr.dc => fd.form \in PlainForms)
-        /\ LET ch == [chain EXCEPT ![N].fields = Append(@, fd)] IN
-           /\ InDomain(ch)
-           /\ chain' = ch
-  /\ UNCHANGED <<open, pc, wf, py, members, glabels, cache, k, tid>>
+        /\ LET ch == [chain EXCEPT ![N].fields = Append(@, fd)]
+               t == Tags(ch)
+           IN /\ t \subseteq Allow
+              /\ chain' = ch /\ tags' = t
+  /\ UNCHANGED <<open, pc, wf, py, members, glabels, cache, k, tid, dom>>
 
 EndClass ==        \* the class statement ends: the visitor has its members, CPython runs the decorator
   /\ pc = "build" /\ open
@@ -442,13 +485,13 @@ EndClass ==        \* the class statement ends: the visitor has its members, CPy
         /\ glabels' = Append(glabels, IF c.hdr.dc THEN {"dataclass"} ELSE {})     \* decorators_to_labels
         /\ cache' = Append(cache, [set |-> FALSE, val |-> <<>>])
   /\ open' = FALSE
-  /\ UNCHANGED <<chain, pc, k, tid>>
+  /\ UNCHANGED <<chain, pc, k, tid, tags, dom>>
 
 EndModule ==       \* GriffeLoader._post_load -> extensions.call("on_package_loaded")
   /\ pc = "build" /\ ~open /\ N >= 1
   /\ (TargetMode => (N = Len(T) \/ ~wf))
   /\ pc' = "apply" /\ k' = 1
-  /\ UNCHANGED <<chain, open, wf, py, members, glabels, cache, tid>>
+  /\ UNCHANGED <<chain, open, wf, py, members, glabels, cache, tid, tags, dom>>
 
 \* _apply_recursively reaches class k
 ApplyRecursively ==
@@ -459,9 +502,9 @@ ApplyRecursively ==
        LET guarded == HasMember(members[k], "__init__")            \* only with the labelhand fix: label, nothing else
            parents == {j \in 1..(k - 1) : Decorated(chain, j)}
            \* ---- _set_dataclass_init
-           called == IF guarded THEN {} ELSE
-                     IF Decorated(chain, k) /\ ~(chain[k].hdr.init = "F" /\ "initF" \in Fix)
-                     THEN CalledBy(chain, k) ELSE parents
+           \* (the initF fix returns only after the class's own parameters were computed, hence cached:
+           \*  _del_members_annotated_as_initvar is about to remove what a subclass will ask for)
+           called == IF guarded THEN {} ELSE CalledBy(chain, k)
            parameters == ConcatParams(chain, 1, k - 1)
                            \o (IF Decorated(chain, k) THEN CachedParameters(chain, k) ELSE <<>>)
            makeInit == /\ ~guarded /\ Decorated(chain, k)
@@ -477,7 +520,7 @@ ApplyRecursively ==
           /\ members' = [members EXCEPT ![k] = pruned]
   /\ k' = k + 1
   /\ pc' = IF k = N THEN "done" ELSE "apply"
-  /\ UNCHANGED <<chain, open, wf, py, tid>>
+  /\ UNCHANGED <<chain, open, wf, py, tid, tags, dom>>
 
 Next == DefClass \/ DefField \/ EndClass \/ EndModule \/ ApplyRecursively
 Spec == Init /\ [][Next]_vars
@@ -494,7 +537,7 @@ ImplRes(i) ==
 PyRes(i) == [own |-> py[i].own, params |-> py[i].init, dataclass |-> py[i].hasfields]
 
 NamesOf(ps) == [j \in 1..Len(ps) |-> ps[j].name]
-Claimed == Done /\ wf /\ (Tags(chain) \subseteq Fix)      \* where the unchanged (or repaired) code is claimed correct
+Claimed == Done /\ wf /\ (tags \subseteq Fix)      \* where the unchanged (or repaired) code is claimed correct
 
 \* the __init__ presented for a dataclass: same existence, names, order, kinds, required-ness
 SameOwn      == Claimed => \A i \in 1..N : chain[i].hdr.dc => ImplRes(i).own = PyRes(i).own
@@ -526,7 +569,7 @@ EncRes(r) == [own |-> r.own, params |-> Enc(r.params), dataclass |-> r.dataclass
 CaseRec ==
   [chain |-> [i \in 1..N |-> [hdr |-> chain[i].hdr,
                               fields |-> [j \in 1..Len(chain[i].fields) |-> <<chain[i].fields[j].name, chain[i].fields[j].form>>]]],
-   tid |-> tid, wf |-> wf, tags |-> Tags(chain),
+   dom |-> dom, tid |-> tid, wf |-> wf, tags |-> tags,
    impl |-> [i \in 1..N |-> EncRes(ImplRes(i))],
    ref |-> [i \in 1..N |-> EncRes(PyRes(i))],
    mem |-> [i \in 1..N |-> [j \in 1..Len(members[i]) |-> members[i][j].name]]]
